@@ -116,5 +116,5 @@ def loom_keys(res):
     out = set()
     for k in res["outcomes"]:
         d = json.loads(k)
-        out.add(canon_key(d["regs"], d.get("drops")))
+        out.add(canon_key(d["regs"], d.get("drops"), d.get("stat")))
     return out
